@@ -257,6 +257,14 @@ fn poison_errno(v: i32) {
     }
 }
 
+/// class of a decoding result: error kind, or counts and presence of a rule
+fn parse_class(bytes: &[u8]) -> u64 {
+    match TimeZone::from_tz_data(bytes) {
+        Ok(z) => Fnv::new().i(z.as_ref().transitions().len() as i64).i(z.as_ref().local_time_types().len() as i64).i(z.as_ref().extra_rule().is_some() as i64).get(),
+        Err(e) => facade::tz_err(&e) as u64 + 1000,
+    }
+}
+
 /// execute one sequence; the digest covers every result
 pub fn execute(s: &Shared, ops: &[Op], yield_seed: Option<u64>) -> (u64, u64) {
     let mut h = Fnv::new();
@@ -284,7 +292,7 @@ pub fn execute(s: &Shared, ops: &[Op], yield_seed: Option<u64>) -> (u64, u64) {
         match op {
             Op::ParseFile(k) => match TimeZone::from_tz_data(&s.files[*k % s.files.len()]) {
                 Ok(z) => {
-                    h = h.i(z.as_ref().transitions().len() as i64).i(z.as_ref().local_time_types().len() as i64);
+                    h = h.i(z.as_ref().transitions().len() as i64).i(z.as_ref().local_time_types().len() as i64).i(z.as_ref().extra_rule().is_some() as i64);
                     if let Ok(t) = z.find_local_time_type(1_700_000_000) {
                         h = h.i(t.ut_offset() as i64);
                     }
@@ -458,7 +466,7 @@ pub fn run(ctx: &Ctx) -> Report {
     rep.rule = "cases = (operation sequence, thread count, schedule seed): sequences mixing parse (file and TZ string; injected reader and the default settings on the real file system: TimeZone::local, TimeZone::from_posix_tz), the clock readers (now, find_current_local_time_type), construct, lookup, from_timespec, find, find_n, format on shared zones (Arc<TimeZone> of vendored files and generated zones, a leaked &'static zone, the const UTC zone) and private values; each sequence's digest when run by one of N threads (N in 2, 4, 8, 16; start barrier; random yields / spins between calls; the thread's errno overwritten with EPERM / ENOENT / EACCES / ... before every call) must equal its digest when run alone (errno 0). The injected reader serves a virtual file system with files in the second directory only and monitors the paths it is handed. \
                 distinct_nontrivial = distinct (sequence, thread count, round) executions whose sequence touches a shared zone."
         .into();
-    rep.required_classes = vec!["threads_2", "threads_4", "threads_8", "threads_16", "shared_zone_ops", "private_value_ops", "parse_ops", "reader_saw_absolute_paths_only", "default_settings_ops_(real_file_system)", "clock_ops", "unchanged_after_a_panicking_reader"];
+    rep.required_classes = vec!["threads_2", "threads_4", "threads_8", "threads_16", "shared_zone_ops", "private_value_ops", "parse_ops", "reader_saw_absolute_paths_only", "default_settings_ops_(real_file_system)", "clock_ops", "unchanged_after_a_panicking_reader", "parse_storm_on_version_dependent_pairs"];
     if !cfg!(miri) {
         rep.required_classes.push("reentrant_reader_completed");
         rep.required_classes.push("readers_waiting_for_each_other_completed");
@@ -484,6 +492,24 @@ pub fn run(ctx: &Ctx) -> Report {
         pool.truncate((pool.len() / 2).max(1));
     }
     let files: Vec<Vec<u8>> = (0..nfiles).map(|_| pool[rng.below(pool.len() as u64) as usize].clone()).collect();
+    // version-dependent pairs: every version-3 file of the corpus (their footers use the RFC 8536 extensions) and its
+    // twin relabelled version 2 (which must be refused): what decides between them is one octet of the input, so any
+    // decoder state that outlives a call or is visible to another thread flips an answer
+    let mut files = files;
+    let mut pairs: Vec<Vec<u8>> = vec![];
+    for b in blobs.iter().filter(|b| b.len() > 5 && b[4] == b'3') {
+        let mut twin = b.clone();
+        twin[4] = b'2';
+        if let Some(h2) = twin.windows(4).skip(4).position(|w| w == b"TZif").map(|p| p + 4) {
+            twin[h2 + 4] = b'2';
+        }
+        pairs.push(b.clone());
+        pairs.push(twin);
+        if pairs.len() >= if cfg!(miri) { 2 } else { 12 } {
+            break;
+        }
+    }
+    files.extend(pairs.iter().cloned());
     let mut zones: Vec<Arc<TimeZone>> = files.iter().take(8).filter_map(|b| TimeZone::from_tz_data(b).ok()).map(Arc::new).collect();
     let cfg = ZoneCfg::search();
     for _ in 0..6 {
@@ -582,6 +608,52 @@ pub fn run(ctx: &Ctx) -> Report {
             if round == 0 && nthreads == 4 {
                 l.sample(|| Json::obj().set("threads", nthreads).set("sequence_length", seq_len).set("first_ops", format!("{:?}", &seqs[0][..6.min(seqs[0].len())])).set("digest_alone", format!("{:016x}", refs[0].0)).set("digest_concurrent", format!("{:016x}", got[0].0)));
             }
+        }
+    }
+    // parse storm: threads that do nothing but decode the version-dependent pairs, so that many decodings of files of
+    // different versions are in flight at the same time; every answer must be the answer the file gets alone
+    if !pairs.is_empty() {
+        let alone: Vec<u64> = pairs.iter().map(|b| parse_class(b)).collect();
+        let nthreads = if cfg!(miri) { 2 } else { 8 };
+        let iters = if cfg!(miri) { 6 } else { ctx.inner(3000) as usize };
+        let barrier = Barrier::new(nthreads);
+        let wrong: Vec<(u64, Option<usize>)> = std::thread::scope(|sc| {
+            let hs: Vec<_> = (0..nthreads)
+                .map(|t| {
+                    let (pairs, alone, barrier) = (&pairs, &alone, &barrier);
+                    sc.spawn(move || {
+                        barrier.wait();
+                        let mut bad = 0u64;
+                        let mut first = None;
+                        for i in 0..iters {
+                            let k = (i * 7 + t * 3) % pairs.len();
+                            if parse_class(&pairs[k]) != alone[k] {
+                                bad += 1;
+                                first.get_or_insert(k);
+                            }
+                        }
+                        (bad, first)
+                    })
+                })
+                .collect();
+            hs.into_iter().map(|h| h.join().unwrap_or((u64::MAX, None))).collect()
+        });
+        l.op_n("TimeZone::from_tz_data (parse storm)", (nthreads * iters) as u64);
+        l.class("parse_storm_on_version_dependent_pairs");
+        let total: u64 = wrong.iter().map(|w| w.0).fold(0, |a, b| a.saturating_add(b));
+        if total > 0 {
+            let k = wrong.iter().find_map(|w| w.1).unwrap_or(0);
+            l.violation(
+                "thread safety: decoding a file gives a different answer while other threads decode other files",
+                format!("{} threads x {} decodings of {} files (version-3 files and their version-2 twins); first wrong answer on file #{} (version octet {:?})", nthreads, iters, pairs.len(), k, pairs[k][4] as char),
+                "the answer each file gets when decoded alone".into(),
+                format!("{} wrong answers", total),
+            );
+        }
+        // and afterwards, alone again: nothing may have stuck
+        let after: Vec<u64> = pairs.iter().map(|b| parse_class(b)).collect();
+        if after != alone {
+            l.violation("ambient state: decoding a file gives a different answer after the concurrent phase", format!("{} files decoded alone before and after", pairs.len()), format!("{:?}", alone), format!("{:?}", after));
         }
     }
     mark(false);
